@@ -204,8 +204,8 @@ def shrink(desc, scratch=None, budget=250):
 
 # ---------------------------------------------------------------------------
 TIERS = {
-    'quick': {'runs': 12800, 'deadline': 75.0, 'min_runs': 800},
-    'thorough': {'runs': 400000, 'deadline': 1500.0, 'min_runs': 20000},
+    'quick': {'runs': 16000, 'deadline': 90.0, 'min_runs': 800},
+    'thorough': {'runs': 400000, 'deadline': 2400.0, 'min_runs': 20000},
 }
 
 RULE = ("One run = a seeded initial table set (1-3 tables, 0-4 rows, 1-6 columns of short/int/long/float/"
@@ -248,5 +248,5 @@ PROBES = ['append_ok', 'append_after_copy', 'append_after_raw_reread', 'append_l
           'append_after_clock_jumped_back', 'write_over_own_file', 'write_over_existing',
           'append_to_missing', 'append_after_missing_refusal_and_recreate',
           'append_string_array_column', 'append_enum_column', 'append_empty', 'write_copy',
-          'write_self_recreates_deleted_file', 'write_ndarray_over_existing', 'start_from_external_file',
+          'write_self_recreates_deleted_file', 'write_ndarray_over_existing', 'start_from_external_file', 'append_after_missing_refusal_and_external_restore',
           'write_with_custom_comments', 'append_widens_variable_length_char_column']
